@@ -142,7 +142,7 @@ func run(c *Ctx) {
 		return
 	}
 	var s st
-	for _, src := range []string{"a;-b", "(1).x", "a // t\n+b", "a +\n// c\n b", "func f(){return // c\na}", "a+(b+c)", "x // t\n/* b */ y", "if a { // c\nb}", "// only\n", "", "/* a */ /* b */ x",
+	for _, src := range []string{"p = `^\\d+$`", "p = \"^\\\\d+$\"", "q = \"raw\"; r = `raw`", "a;-b", "(1).x", "a // t\n+b", "a +\n// c\n b", "func f(){return // c\na}", "a+(b+c)", "x // t\n/* b */ y", "if a { // c\nb}", "// only\n", "", "/* a */ /* b */ x",
 		"func f(){\n// c\n}", "a // t1\n// t2\nb", "{1:2} // t", "x = [1,\n2]", "for i=0:3 { /* in */ }"} {
 		one(c, []byte(src), true, &s)
 	}
@@ -164,30 +164,45 @@ func run(c *Ctx) {
 		}
 		one(c, b, len(b) < 4000, &s)
 	}
-	// fresh process: same bytes
+	// fresh process, and a different parsing history: the same inputs formatted by a child process in the
+	// same order and in REVERSE order (token interning / any process-wide state must not matter)
 	exe, _ := os.Executable()
-	cmd := exec.Command(exe, "-child")
-	var in bytes.Buffer
-	for _, src := range forChild {
-		in.WriteString(Hx(src) + "\n")
-	}
-	cmd.Stdin = &in
-	out, err := cmd.Output()
-	if err != nil {
-		c.Fail("fresh-process-run", "child", err.Error())
-	} else {
+	for _, rev := range []bool{false, true} {
+		idx := make([]int, len(forChild))
+		for i := range idx {
+			idx[i] = i
+			if rev {
+				idx[i] = len(forChild) - 1 - i
+			}
+		}
+		cmd := exec.Command(exe, "-child")
+		var in bytes.Buffer
+		for _, i := range idx {
+			in.WriteString(Hx(forChild[i]) + "\n")
+		}
+		cmd.Stdin = &in
+		out, err := cmd.Output()
+		if err != nil {
+			c.Fail("fresh-process-run", "child", err.Error())
+			continue
+		}
 		lines := strings.Split(strings.TrimSpace(string(out)), "\n")
-		for i, ln := range lines {
-			if i >= len(forChild) {
+		for k, ln := range lines {
+			if k >= len(idx) {
 				break
 			}
+			i := idx[k]
 			want := Hx(forChildOut[i][0]) + " " + Hx(forChildOut[i][1])
 			if ln != want {
-				c.Fail("fresh-process-differs", "FMT2 "+Hx(forChild[i]), fmt.Sprintf("child %s parent %s", ln, want))
+				sig := "fresh-process-differs"
+				if rev {
+					sig = "history-dependent-output"
+				}
+				c.Fail(sig, "FMT2 "+Hx(forChild[i]), fmt.Sprintf("child %s parent %s", ln, want))
 			}
 			c.Eval()
 		}
-		c.Dist["fresh-process-compared"] = len(lines)
+		c.Dist[fmt.Sprintf("fresh-process-compared(reversed=%v)", rev)] = len(lines)
 	}
 	c.Dist["fixpoint"] = s.fixpoint
 	c.Dist["not-fixpoint"] = s.notfix
